@@ -710,6 +710,16 @@ pub fn emit(prop: &str, g: &mut Gen, out: &mut Vec<String>) {
                         let j2 = if g.rng.chance(1, 3) { j } else if g.rng.chance(1, 2) { clamp(j + g.rng.range(-2, 2), I32_MIN, I32_MAX) } else { g.jdn(&oc2) };
                         push(out, format!("cmp_date {ct} {j} {c2} {j2}"));
                         push(out, format!("cmp_cal {ct} {c2}"));
+                        // a date reached by stepping or by an iterator's jump (nth, skip, step_by, last)
+                        // against the directly constructed date of the day it ended on
+                        if g.rng.chance(1, 3) {
+                            let n = 1 + g.rng.below(3);
+                            let steps: Vec<String> = (0..n)
+                                .map(|_| (*g.rng.pick(&["s", "p", "L", "E", "A", "a", "L3", "L9", "E3", "E9", "A3", "A9", "a3", "a9", "LS", "AS", "Df", "Dl"])).to_string())
+                                .collect();
+                            let cc = if g.rng.chance(2, 3) { ct.clone() } else { c2.clone() };
+                            push(out, format!("cmp_hist {ct} {j} {} / {cc} =", steps.join(" ")));
+                        }
                         // the same comparison between dates that reached (ct, j) and (c2, j2) through
                         // other producers: conversion from a third calendar, re-construction from
                         // the label, parsing, stepping there and back
